@@ -439,17 +439,22 @@ def zeroOf (zero : α) : Kind → RVal α
   | .geom .B => .geom .nil
   | .geom .I => .geom .nil
 
-/-- one struct field of `DecodeRow`; returns the field's value and whether a parse error was recorded -/
-def decodeField (zero : α) (keys : List Bytes) (g : Geom α) (cells : List Bytes) (sf : SField) :
+/-- one struct field of `DecodeRow`. `prev` is what the field of the caller's record variable holds when
+the call starts (its zero value for a fresh variable, the previous row's value when the caller reuses one
+variable: `var rec T; for d.DecodeRow(&rec) {…}`). Returns the field's value after the call and whether a
+parse error was recorded. Every MATCHED attribute field is assigned on every row — also with `""`, `0`,
+`0.0`; a field keeps `prev` only when no column matches it, when the shape is Null (`continue`), or when
+its cell does not parse. -/
+def decodeField (keys : List Bytes) (g : Geom α) (cells : List Bytes) (sf : SField) (prev : RVal α) :
     Except Fault (RVal α × Bool) :=
   match sf.kind with
   | .geom k =>
     match g with
-    | .nil => .ok (zeroOf zero sf.kind, false)       -- `if g == nil { continue }`
+    | .nil => .ok (prev, false)       -- `if g == nil { continue }`
     | _ => if k = .I ∨ dynKind g = some k then .ok (.geom g, false) else .error .reflectSet
   | k =>
     match matchField keys sf with
-    | none => .ok (zeroOf zero k, false)
+    | none => .ok (prev, false)
     | some j =>
       match cells[j]? with
       | none => .error .index
@@ -457,24 +462,28 @@ def decodeField (zero : α) (keys : List Bytes) (g : Geom α) (cells : List Byte
         match k with
         | .int => match parseInt (numText cell) with
           | some i => .ok (.int i, false)
-          | none => .ok (.int 0, true)
+          | none => .ok (prev, true)
         | .float => match parseFloat (numText cell) with
           | some u => .ok (.float u, false)
-          | none => .ok (.float 0, true)
+          | none => .ok (prev, true)
         | _ => .ok (.str (strOf cell), false)
 
-/-- the struct fields of one `DecodeRow` call in order. `none`: a field panicked; the flag says whether a
-parse error had been recorded (`r.err`) by then -/
+/-- the struct fields of one `DecodeRow` call in order, `prevs` being the record variable's contents
+before the call. `none`: a field panicked; the flag says whether a parse error had been recorded
+(`r.err`) by then -/
 def decodeFields (zero : α) (keys : List Bytes) (g : Geom α) (cells : List Bytes) :
-    List SField → Option (List (RVal α)) × Bool
-  | [] => (some [], false)
-  | sf :: rest =>
-    match decodeField zero keys g cells sf with
+    List SField → List (RVal α) → Option (List (RVal α)) × Bool
+  | [], _ => (some [], false)
+  | sf :: rest, prevs =>
+    match decodeField keys g cells sf (prevs.headD (zeroOf zero sf.kind)) with
     | .error _ => (none, false)
     | .ok (v, e) =>
-      match decodeFields zero keys g cells rest with
+      match decodeFields zero keys g cells rest prevs.tail with
       | (none, e') => (none, e || e')
       | (some vs, e') => (some (v :: vs), e || e')
+
+/-- a fresh record variable -/
+def zeroRow (zero : α) (sfs : List SField) : List (RVal α) := sfs.map fun sf => zeroOf zero sf.kind
 
 /-- result of reading a whole file: the rows handed to the caller, whether the loop ended in a panic,
 and whether `Error()` is non-nil afterwards -/
@@ -485,20 +494,23 @@ structure ReadRes (α : Type) where
 deriving Inhabited
 
 /-- repeated `DecodeRow` until it returns false (a row with a parse error is still returned; the next
-call returns false) -/
-def readS (zero : α) (f : FileM α) (sfs : List SField) : ReadRes α :=
+call returns false). `reuse`: the caller decodes every row into the SAME record variable (what it holds
+is carried from row to row) instead of a fresh one per row. -/
+def readS (zero : α) (f : FileM α) (sfs : List SField) (reuse : Bool) : ReadRes α :=
   let keys := fileKeys f.fields
-  let rec go : List (Shape α × List Bytes) → ReadRes α
-    | [] => ⟨[], false, false⟩
-    | (sh, cells) :: rest =>
+  let rec go : List (Shape α × List Bytes) → List (RVal α) → ReadRes α
+    | [], _ => ⟨[], false, false⟩
+    | (sh, cells) :: rest, var =>
       match shp2Geom sh with
       | .error _ => ⟨[], true, false⟩
       | .ok g =>
-        match decodeFields zero keys g cells sfs with
+        match decodeFields zero keys g cells sfs var with
         | (none, e) => ⟨[], true, e⟩
         | (some vs, true) => ⟨[vs], false, true⟩
-        | (some vs, false) => let r := go rest; ⟨vs :: r.rows, r.panicked, r.err⟩
-  go f.rows
+        | (some vs, false) =>
+          let r := go rest (if reuse then vs else zeroRow zero sfs)
+          ⟨vs :: r.rows, r.panicked, r.err⟩
+  go f.rows (zeroRow zero sfs)
 
 /-- the map `DecodeRowFields(names...)` fills: entries until the first name the file does not have -/
 def rowFieldsMap (keys : List Bytes) (cells : List Bytes) : List Bytes → Except Fault (List (Bytes × Bytes) × Bool)
@@ -539,9 +551,15 @@ def readF (f : FileM α) (names : List Bytes) : ReadRes α :=
 
 /-- one reading call on a decoder: `DecodeRow(&struct)` or `DecodeRowFields(names...)` -/
 inductive Call where
-  | s (sfs : List SField)
+  | s (sfs : List SField) (reuse : Bool)    -- `reuse`: one record variable per call site, carried across rows
   | f (names : List Bytes)
 deriving Inhabited
+
+/-- the record variables of the call sites of a schedule (position = call index) -/
+def setVar {β : Type} : List β → Nat → β → List β
+  | [], _, _ => []
+  | _ :: xs, 0, v => v :: xs
+  | x :: xs, n + 1, v => x :: setVar xs n v
 
 /-- A reading schedule on ONE `Decoder`: the `i`-th record is read with call `calls[i mod len]` (any mix of
 `DecodeRow` and `DecodeRowFields`, any field list per row, also none).
@@ -552,9 +570,9 @@ reads. Both calls end with `r.row++` for every decoded record, whatever fields w
 also records the error the loop stops on). -/
 def readM (zero : α) (f : FileM α) (calls : List Call) : ReadRes α :=
   let keys := fileKeys f.fields
-  let rec go : List (Shape α × List Bytes) → Nat → Nat → ReadRes α
-    | [], _, _ => ⟨[], false, false⟩
-    | (sh, _) :: rest, row, i =>
+  let rec go : List (Shape α × List Bytes) → Nat → Nat → List (List (RVal α)) → ReadRes α
+    | [], _, _, _ => ⟨[], false, false⟩
+    | (sh, _) :: rest, row, i, vars =>
       match calls[i % calls.length]? with
       | none => ⟨[], false, false⟩
       | some call =>
@@ -565,17 +583,20 @@ def readM (zero : α) (f : FileM α) (calls : List Call) : ReadRes α :=
           | none => ⟨[], true, false⟩
           | some (_, cells) =>
             match call with
-            | .s sfs =>
-              match decodeFields zero keys g cells sfs with
+            | .s sfs reuse =>
+              let var := if reuse then (vars[i % calls.length]?).getD (zeroRow zero sfs) else zeroRow zero sfs
+              match decodeFields zero keys g cells sfs var with
               | (none, e) => ⟨[], true, e⟩
               | (some vs, true) => ⟨[vs], false, true⟩
-              | (some vs, false) => let r := go rest (row + 1) (i + 1); ⟨vs :: r.rows, r.panicked, r.err⟩
+              | (some vs, false) =>
+                let r := go rest (row + 1) (i + 1) (setVar vars (i % calls.length) vs)
+                ⟨vs :: r.rows, r.panicked, r.err⟩
             | .f names =>
               match rowFields keys cells names with
               | .error _ => ⟨[], true, false⟩
               | .ok (vs, true) => ⟨[.geom g :: vs], false, true⟩
-              | .ok (vs, false) => let r := go rest (row + 1) (i + 1); ⟨(.geom g :: vs) :: r.rows, r.panicked, r.err⟩
-  go f.rows 0 0
+              | .ok (vs, false) => let r := go rest (row + 1) (i + 1) vars; ⟨(.geom g :: vs) :: r.rows, r.panicked, r.err⟩
+  go f.rows 0 0 (calls.map fun c => match c with | .s sfs _ => zeroRow zero sfs | .f _ => [])
 
 end read
 
